@@ -345,6 +345,36 @@ func Monitor(prop string, c Case, sch *Schema, obs []OpObs) []Failure {
 			}
 		}
 	}
+	if prop == "C01" || prop == "C14" {
+		// the machine is idle between two operations of a history: the time-before of the first
+		// transition of an operation is the machine's time as read after the previous operation
+		// (faults included: what the recovery ticked is part of it); histories with timeout rules are
+		// left out, a timed-out handler's goroutine may still be running
+		hasTimeout := false
+		for _, l := range c.Lines {
+			if strings.HasPrefix(l, "rule ") && strings.Contains(l, " timeout") {
+				hasTimeout = true
+			}
+		}
+		var prevClock []uint64
+		for li, o := range obs {
+			if !o.IsOp || o.Crash != "" {
+				prevClock = nil
+				continue
+			}
+			if prevClock != nil && !hasTimeout && !ci.disposes {
+				for i := range o.Events {
+					if e := &o.Events[i]; e.Kind == "TI" {
+						if len(e.TB) == len(prevClock) && !eqU64(e.TB, prevClock) {
+							add(li, "", "time-before %v of the first transition of `%s` is not the machine's time %v read after the previous operation", e.TB, o.Line, prevClock)
+						}
+						break
+					}
+				}
+			}
+			prevClock = o.Clock
+		}
+	}
 	switch prop {
 	case "C01":
 		var prev []uint64
